@@ -183,6 +183,9 @@ LOCAL_TYPES = {
     "LG2": "type LG2[K comparable, V any] map[K]V",
     "LC": "type LC interface{ ~int | ~string }",
     "LS": "type LS struct{}\n\nfunc (LS) String() string { return \"\" }",
+    "LSI": "type LSI int\n\nfunc (LSI) String() string { return \"\" }",
+    "Number": "type Number interface{ ~int | ~int64 }",
+    "LStr": "type LStr interface{ ~string }",
 }
 for _n in ["mock", "sync", "a", "i", "args", "run", "ret", "t", "m", "Mock", "String", "Type", "Ret", "Zzea", "CallInfo", "io"]:
     LOCAL_TYPES[_n] = "type %s struct{ X int }" % IDMAP.get(_n, _n)
@@ -305,7 +308,9 @@ class Renderer:
             xs = [conc_ident(m["n"]) + self.sig(m) for m in t["ms"]] + [self.t(e) for e in t["es"]]
             return "interface{ " + "; ".join(xs) + " }" if xs else "interface{}"
         if k == "union":
-            return " | ".join("~" + self.t(x) for x in t["ts"])
+            return " | ".join(self.t(x["e"]) if x["k"] == "plain" else "~" + self.t(x) for x in t["ts"])
+        if k == "plain":
+            return self.t(t["e"])
         raise MachineryError("unknown term kind %r" % (k,))
 
 
@@ -329,6 +334,8 @@ def walk_terms(t, fn):
     elif k == "union":
         for x in t["ts"]:
             walk_terms(x, fn)
+    elif k == "plain":
+        walk_terms(t["e"], fn)
     elif k == "iface":
         for m in t["ms"]:
             for v in m["ps"] + m["rs"]:
@@ -770,7 +777,9 @@ class Case:
         return {"template": self.cfg["tmpl"], "formatter": self.cfg["fmt"], "placement": self.cfg["place"],
                 "inpkg": bool(self.cexpect["inpkg"]), "gomod": self.cfg["gomod"], "family": p["fam"],
                 "feature": p["feat"], "idclass": p["idclass"], "ident": p["ident"], "pos": p["pos"], "srcname": p["srcname"],
-                "unroll": self.cfg["unroll"], "skipensure": self.cfg["skipensure"], "stub": self.cfg["stub"], "ovr": self.cfg["ovr"]}
+                "unroll": self.cfg["unroll"], "stub": self.cfg["stub"], "ovr": self.cfg["ovr"],
+                # EFFECTIVE: no interface of the file renders its ensure line (options may be overridden per interface)
+                "skipensure": (not self.extra.get("ens", not self.cfg["skipensure"])) if self.cfg["tmpl"] == "matryer" else False}
 
     def brief(self):
         return {"cid": self.cid, "pid": self.pid, "cfg": self.cfg, "dir": self.dir, "out": self.outdir + "/" + self.outfile}
@@ -814,6 +823,7 @@ def build_worlds(ctx, sp, pairs, all_decls=None):
         # does some interface of the file render its ensure line (effective options per interface from CodegenCfg.tla)?
         ens = cfg["tmpl"] == "matryer" and (not c["expect"]["predkey"]["skipensure"] or (multi and not c["expect"]["predkey_rest"]["skipensure"]))
         cs.pred = sp.pred(pid, cfg["tmpl"], c["expect"]["inpkg"], ens)
+        cs.extra = {"ens": ens}
         cs.world = d
         cs.dir = "c/" + cs.cid
         cs.pkgpath = MOD + "/" + cs.dir
@@ -823,7 +833,6 @@ def build_worlds(ctx, sp, pairs, all_decls=None):
         exported = cs.target[:1].upper() == cs.target[:1] and cs.target[:1].lower() != cs.target[:1]
         cs.mockname = ("Mock" if exported else "mock") + cs.target
         cs.mockery = cs.typecheck = cs.info = None
-        cs.extra = {}
         cs.srcok = None
         (d / cs.dir).mkdir(parents=True)
         extra = [a for n_, tas in sp.progs[pid].get("alltargs", {}).items() if cs.prog["decls"][n_]["tps"] for ta in tas for a in ta]
